@@ -531,7 +531,8 @@ class HRealised(Realised):
         if kind == "td":
             from .realise import make_typeddict
             fs = [(f["name"], self.ty(f["ty"]) if f["ty"] is not None else Any, f.get("required", True)) for f in c["fields"]]
-            return make_typeddict(name, fs, (self.uid + ci) % 3)
+            # (six spellings incl. hierarchies of mixed totality; a self-referential TypedDict stays one class)
+            return make_typeddict(name, fs, (self.uid + ci) % (3 if c.get("recursive") else 6))
         if kind == "nt":
             ann = [(f["name"], self.ty(f["ty"]) if f["ty"] is not None else Any) for f in c["fields"]]
             cl = NamedTuple(name, ann)
